@@ -192,13 +192,18 @@ let hc_dump (h : hc) =
   let ad = match q.fq_ack_data with Some d -> sn d.ad_last_send ^ ":" ^ sn d.ad_total ^ ":" ^ b01 d.ad_rate_limited | None -> "-" in
   let li = String.concat "," (List.map (fun e -> sn e.li_end ^ "/" ^ sn e.li_len) q.fq_li) in
   let rb = q.fq_rb in
-  Printf.sprintf "now=%s rtt=%s rto=%s credit=%s fid=%s sr=%s stb=%s pq=%d rq=%d | snd q=%d base=%s next=%s alloc=%s total=%s | fq wbase=%s next=%s lbase=%s llen=%d rl=%s lf=%s ad=%s rb=%s:%s:%s:%s li=[%s] | rcv base=%s end=%s alloc=%s crf=%s wrf=%s held=%s | faq base=%s len=%d | src %s"
+  Printf.sprintf "now=%s rtt=%s rto=%s credit=%s fid=%s sr=%s stb=%s pq=%d rq=%d | snd q=%d base=%s next=%s alloc=%s total=%s | fq wbase=%s next=%s lbase=%s llen=%d rl=%s lf=%s ad=%s rb=%s:%s:%s:%s li=[%s] | rcv base=%s end=%s alloc=%s crf=%s wrf=%s held=%s cb=[%s] cn=[%s] mk=[%s] ef=%d df=%d | faq base=%s len=%d | src %s"
     (sn h.h_now) (sn h.h_rtt) (sn h.h_rto) (z_to_string h.h_credit) (sn h.h_flush_id) (b01 h.h_sync_reply) (sn h.h_sync_base)
     (List.length h.h_pq) (List.length h.h_rq)
     (List.length s.s_queue) (sn s.s_base) (sn s.s_next) (sn s.s_alloc) (sn s.s_total)
     (sn q.fq_wbase) (sn q.fq_next) (sn q.fq_lbase) (List.length q.fq_frames) (b01 q.fq_rate_limited) (optn q.fq_last_feedback) ad
     (sn rb.rb_base) (sn rb.rb_count) (sn rb.rb_f0) (sn rb.rb_f1) li
     (sn r.r_base) (sn r.r_end) (sn r.r_alloc) (hex_of_n r.r_crf) (b01 r.r_wrf) (sn (receiver_held r))
+    (String.concat "," (List.concat (List.mapi (fun c ch -> match ch.rc_base with Some b -> [string_of_int c ^ ":" ^ sn b] | None -> []) r.r_chans)))
+    (String.concat "," (List.concat (List.mapi (fun c ch -> if sn ch.rc_count <> "0" then [string_of_int c ^ ":" ^ sn ch.rc_count] else []) r.r_chans)))
+    (String.concat "," (List.concat (List.mapi (fun i sl -> match sl.sl_marker with Some c -> [string_of_int i ^ ":" ^ sn c] | None -> []) r.r_slots)))
+    (List.length (List.filter (fun sl -> sl.sl_entry) r.r_slots))
+    (List.length (List.filter (fun sl -> sl.sl_dflag) r.r_slots))
     (sn fa.fa_base) (List.length fa.fa_entries)
     (src_dump h.h_src)
 
